@@ -183,7 +183,7 @@ def check(ctx: Ctx) -> None:
                 else:
                     ld = [e for e in others if e.callee == "loads_internal"]
                     re_ = [e for e in others if e.callee == "RemoteError"]
-                    ok = ok and cid == MID and so == const(False) and len(ld) == 1 and ld[0].args[:1] == (MDATA,) and len(re_) == 1 \
+                    ok = ok and cid == MID and so == const(False) and len(ld) == 1 and ld[0].args == (MDATA,) and not ld[0].kwargs and len(re_) == 1 \
                         and re_[0].args == (ld[0].result,) and rerr == re_[0].result and len(others) == 2
             what = {4: "_local_receive(id, payload)", 5: "_local_close(id)", 6: "_local_close(id, RemoteError(loads_internal(payload)))", 7: "_local_close(id, sendonly=True)"}[code]
             ob.site(h, h.node, f"code {code} ({MESSAGE_TABLE[code][0]}): handler {h.name} -> {what}", ok=ok)
